@@ -211,6 +211,11 @@ func VerifC05Retry() {
 			vReach("cancelled-or-timed-out")
 		default:
 			// neither shutdown nor cancellation: giving up is justified only by the budget or the deadline
+			if len(vc05Backoffs) < n || vClockCount() <= last.clockIdx {
+				// the sender gave up on a transient failure without even consulting the back-off or the clock
+				vAssert(false, "gives-up-only-when-the-next-attempt-does-not-fit")
+				break
+			}
 			now := vClockReading(last.clockIdx)
 			delay := vc05Backoffs[n-1]
 			if last.throttle > delay {
